@@ -431,7 +431,7 @@ theorem lineOps_gate (s : DState) (l : String) :
       · simp only
         exact ⟨fun _ => trivial, fun _ _ _ => trivial⟩
     · split
-      · exact ⟨fun _ => rfl, fun _ _ _ => rfl⟩
+      · exact ⟨id, fun x t h => by simp at h⟩
       · split
         · generalize decodeRequest _ _ = d
           split
